@@ -208,7 +208,7 @@ def main():
   env.set_phase(0)
   n_bt = 0
   for alpha in (None, 1.0, 2.0, "auto", "auto_po2"):
-    for shape in ((7,), (4, 3), (2, 3, 4)):
+    for shape in ((7,), (4, 3), (2, 3, 4), (64, 4)):
       xx = rng.normal(0, 1, size=shape).astype(np.float32)
       xx.flat[0] = 0.0
       xt = tf.constant(xx)
@@ -216,6 +216,9 @@ def main():
                ("binary(use_stochastic_rounding)", Q.binary(alpha=alpha, use_stochastic_rounding=True), Q.binary(alpha=alpha))]
       if alpha is None or isinstance(alpha, str):
         pairs.append(("stochastic_ternary", Q.stochastic_ternary(alpha=alpha), Q.ternary(alpha=alpha)))
+        # every option the deterministic counterpart shares must reach it: the number of scale / threshold iterations, the temperature-free inference path
+        for nu in (1, 2, 3, 7):
+          pairs.append((f"stochastic_ternary(number_of_unrolls={nu})", Q.stochastic_ternary(alpha=alpha, number_of_unrolls=nu), Q.ternary(alpha=alpha, number_of_unrolls=nu)))
       else:
         pairs.append(("stochastic_ternary", Q.stochastic_ternary(alpha=alpha, threshold=0.4), Q.ternary(alpha=alpha, threshold=0.4)))
       for name, qs, qd in pairs:
